@@ -1706,6 +1706,7 @@ class Model:
     # Think of something like NADPH / (NADP + NADPH) as a proxy for energy state
     ##########################################################################
 
+    @_invalidate_cache
     def add_readout(
         self,
         name: str,
@@ -1755,6 +1756,7 @@ class Model:
             return copy.deepcopy(self._readouts)
         return self._readouts
 
+    @_invalidate_cache
     def remove_readout(self, name: str) -> Self:
         """Remove a readout by its name.
 
